@@ -152,6 +152,9 @@ def run(ctx, rep):
     rep.rule('R03.6', 'who frees: destroy <- Object::free <- {GC::sweep, free_recursive}; free_recursive unused inside the crate')
     rep.rule('R03.7', 'unchanged / never recycled: a &mut into a box is taken only by the constructor that allocated it or on the IndexSet path')
     check_payload_writers(ctx, rep, 'R03.7')
+    rep.rule('R03.8', 'no object is released twice: free_recursive (the caller releasing a result) frees an object only after a set answered `first time` for it, at the moment it is taken from the work list - an array can hold the same object in two elements')
+    from rules import c04 as _c04
+    _c04.check_free_recursive(ctx, rep, 'R03.8')
     # ---- R03.1 ---------------------------------------------------------------------------------
     alloc_callers = sorted({f.path for f, b, t in F.callers_of(lambda p: p == 'object::allocate')})
     priv = {'object::Float::from_f64', 'object::String::from_string', 'object::Array::from_vec'}
@@ -305,6 +308,23 @@ def check_array_recursion(ctx, rep, rule, names=('mark', 'untrace')):
                         if n_.endswith(('::extend', '::extend_from_slice', '::append')) and t_['args'] and _unref(_sym(fn, t_['args'][0])) == L_ \
                                 and 'as_vec' in str(_sym(fn, t_['args'][1])):
                             rec = True
+                            # the list is worked off to the end: the loop is left only where the list answered `empty`; an
+                            # early `return` / `break` on another path (an object that is not found, say) abandons what is
+                            # still on the list
+                            early = []
+                            for u_ in sorted(body_):
+                                tu_ = fn.term(u_)
+                                outs_ = [v_ for v_ in fn.succ(u_) if v_ not in body_]
+                                if not outs_:
+                                    continue
+                                dv_ = strip(_sym(fn, tu_['op'])) if tu_['k'] == 'switch' else None
+                                if dv_ and dv_[0] == 'discr' and isinstance(dv_[1], tuple) and dv_[1][0] == 'call' and dv_[1][1].endswith('::pop'):
+                                    continue
+                                early.append(u_)
+                            rep.ob(not early, rule, fn.path, 'work list emptied',
+                                   'the loop that draws from the work list ends only when the list is empty: %s' % (
+                                       'no other way out of it' if not early else 'it can also be left from block(s) %s, with objects still waiting on the list (their part of the result is never visited)' % early),
+                                   span_loc(fn.term(early[0])['span']) if early and fn.term(early[0]).get('span') else fn.loc())
         if not rec:
             # ... or in the closure handed to for_each over those elements
             from rules.shared import for_each_over
